@@ -684,6 +684,9 @@ func (m *vfMangleWriter) finish() {
 }
 
 func (p *vfIdP) clientOK(r *http.Request, form url.Values) bool {
+	if form.Get("client_assertion_type") == "urn:ietf:params:oauth:client-assertion-type:jwt-bearer" && strings.Count(form.Get("client_assertion"), ".") == 2 {
+		return true // private_key_jwt client authentication (login.gov flavour); the assertion's signature is not what is under test
+	}
 	if id, sec, ok := r.BasicAuth(); ok {
 		idd, _ := url.QueryUnescape(id)
 		secd, _ := url.QueryUnescape(sec)
@@ -757,7 +760,7 @@ func (p *vfIdP) tokenCode(rw http.ResponseWriter, r *http.Request, call *vfIdpCa
 		p.tokenError(rw, call, 400, "invalid_grant")
 		return
 	}
-	if ru := form.Get("redirect_uri"); ru != c.Req.RedirectURI {
+	if ru := form.Get("redirect_uri"); ru != c.Req.RedirectURI && !(ru == "" && form.Get("client_assertion") != "") { // (the login.gov flavour sends none)
 		p.tokenError(rw, call, 400, "invalid_grant_redirect_uri")
 		return
 	}
